@@ -65,6 +65,26 @@ Required(c, evkey, isState) ==
     ELSE IF isState THEN Thr(c, "state_default") ELSE Thr(c, "events_default")
 
 (***************************************************************************)
+(* Scenario constructors shared by the generation wrappers                 *)
+(***************************************************************************)
+BaseSt == [create |-> [present |-> TRUE, room |-> "same", federate |-> "absent", addl |-> {}],
+           pl |-> [present |-> FALSE, c |-> EmptyPL],
+           jr |-> "absent", mem |-> [u \in Users |-> "absent"],
+           tpi |-> "absent", tpisender |-> "creator", mixedrooms |-> FALSE]
+
+BaseEv == [type |-> "msg", sender |-> "alice", target |-> "alice", membership |-> "join",
+           prev |-> "other", authvia |-> "none", tpi |-> "none", skey |-> "none",
+           redacts |-> "own_domain", newpl |-> EmptyPL,
+           c_prevs |-> FALSE, c_domain |-> "match", c_roomid |-> FALSE, c_rv |-> "own",
+           c_creator |-> TRUE, c_addl |-> "none"]
+
+WithMem(s, u, m) == [s EXCEPT !.mem[u] = m]
+WithPL(s, c) == [s EXCEPT !.pl = [present |-> TRUE, c |-> c]]
+
+MemberEv(sender, target, m) == [BaseEv EXCEPT !.type = "member", !.sender = sender, !.target = target,
+                                               !.membership = m, !.skey = "self"]
+
+(***************************************************************************)
 (* Rule 1 - m.room.create                                                  *)
 (***************************************************************************)
 R1_Create(v, ev) ==
